@@ -53,7 +53,7 @@ def parse_attr(ev):
             continue
         k, v = item.split("=", 1)
         k, v = k.strip(), v.strip()
-        mm = re.fullmatch(r'"\x00(\d+)\x00"', v)
+        mm = re.fullmatch(r'"\x00(\d+)\x00"', v) or re.fullmatch(r'\x00(\d+)\x00', v)
         if mm:
             out[k] = ("hole", hole_list[int(mm.group(1))][0])
         elif "\x00" in v:
@@ -69,7 +69,7 @@ def parse_attr(ev):
     # trailing hole glued to the previous value: `rename = "{}"{}`
     for k, v in list(out.items()):
         if isinstance(v, tuple) and v[0] == "raw":
-            mm = re.fullmatch(r'"\x00(\d+)\x00"\x00(\d+)\x00', v[1])
+            mm = re.fullmatch(r'"?\x00(\d+)\x00"?\x00(\d+)\x00', v[1])
             if mm:
                 out[k] = ("hole", hole_list[int(mm.group(1))][0])
                 out.setdefault("_holes", []).append(hole_list[int(mm.group(2))][0])
